@@ -59,6 +59,21 @@ def gen_irset(rng: random.Random, *, toggle: bool | None = None, special: bool |
                 maybe(f"on_{base}", 0.4 * p)
         if len(keys) == before:
             keys.append(m + (f"{lo:02d}" if m in ("ar", "ah") else "") + "_f1")
+    # entries no regular set has but a vendor's file may: a temperature on a mode that takes none ("aa25": a factory default),
+    # a COOL / HEAT entry without one ("ah_f1").  They are never what a request resolves to unless it names exactly them.
+    if rng.random() < 0.35:
+        for m in modes:
+            if m in ("ar", "ah"):
+                maybe(m, 0.3)
+                maybe(f"{m}_f{rng.randrange(4)}", 0.4)
+                maybe(f"{m}_f{rng.randrange(4)}_d1", 0.3)
+            else:
+                tt = rng.randrange(lo, hi + 1)
+                maybe(f"{m}{tt:02d}", 0.5)
+                maybe(f"{m}{rng.randrange(10, 33):02d}", 0.3)
+                maybe(f"{m}{tt:02d}_f{rng.randrange(4)}", 0.3)
+                if toggle:
+                    maybe(f"on_{m}{tt:02d}", 0.3)
     if not toggle or rng.random() < 0.2:
         maybe("off", 0.9)
     if special or rng.random() < 0.1:
